@@ -266,7 +266,7 @@ PROPS["C19"] = dict(
     obligations=["Panacea.C19.fold_descriptors_eq_mounted", "Panacea.C19.every_mounted_store_accounted",
                  "Panacea.C19.no_mounted_store_deleted", "Panacea.C19.added_stores_are_mounted", "Panacea.C19.no_double_add",
                  "Panacea.C19.last_upgrade_is_v2_2_1", "Panacea.C19.custom_modules_not_migrated",
-                 "Panacea.C10.upgrade_handlers_touch_only_block_state"],
+                 "Panacea.C19.upgrade_handlers_touch_only_block_state"],
     streams=[dict(name="upgrade", quick=8, thorough=100, thorough_seeds=3)],
     trusted=["translator /verif/extract: Generated.upgrades (app.Upgrades with each descriptor's name, Added, Deleted), Generated.mountedStores (arguments of sdk.NewKVStoreKeys), Generated.consensusVersions, regenerated from the source on every run; the theorems are about these regenerated tables",
              "recorded constant `baseline` (stores of the release before v2.0.5)",
